@@ -56,8 +56,9 @@ def run(repo: Repo, rep, tier: str):
 
 # ------------------------------------------------------------------------------- R1
 def container_rule(repo: Repo, rep, P: str):
-    fn = repo.func("rv.lib.iff", "write_chunk")
+    from .. import inline, guards
     sf = repo.module("rv.lib.iff")
+    fn = inline.fold_module_names(repo, sf, inline.nest_guard_clauses(inline.normalize(repo, None, repo.func("rv.lib.iff", "write_chunk"), sf=sf)))
     construct = f"{sf.rel}:write_chunk"
     rep.func("rv.lib.iff.write_chunk")
     params = [a.arg for a in fn.args.args]
@@ -67,12 +68,18 @@ def container_rule(repo: Repo, rep, P: str):
     f, name, data = params
     env: Dict[str, ast.expr] = {}
     writes: List[ast.expr] = []
-    for st in stmts_of(fn):
+    todo = list(stmts_of(fn))
+    while todo:
+        st = todo.pop(0)
         if isinstance(st, ast.Assign) and len(st.targets) == 1 and isinstance(st.targets[0], ast.Name):
             env[st.targets[0].id] = codec.subst(st.value, env)
         elif isinstance(st, ast.Expr) and isinstance(st.value, ast.Call) and norm(st.value.func) == f"{f}.write":
             writes.append(codec.subst(st.value.args[0], env))
         elif isinstance(st, ast.If) and norm(st.test) == f"{name} is None" and all(isinstance(s, ast.Return) for s in st.body):
+            continue
+        elif isinstance(st, ast.If) and not st.orelse and guards.facts(st.test, True) == {f"{name} is not None"}:
+            todo = list(st.body) + todo            # the whole chunk is written under `name is not None`
+        elif isinstance(st, ast.Pass):
             continue
         else:
             rep.inconclusive(f"{P}.R1", construct, norm(st)[:80], "unmodelled statement in write_chunk", f"{sf.rel}:{st.lineno}")
